@@ -37,6 +37,8 @@ pub struct Cfg {
     /// block heights occasionally jump beyond i64::MAX (a u64 height is legal; whatever a contract is told must
     /// be the simulator's block)
     pub huge_blocks: bool,
+    /// response data is sometimes 127 / 128 / 129 bytes long (the protobuf length prefix becomes two bytes at 128)
+    pub big_data: bool,
 }
 impl Default for Cfg {
     fn default() -> Self {
@@ -57,6 +59,7 @@ impl Default for Cfg {
             set_remove_bias: false,
             migrate_bias: false,
             huge_blocks: false,
+            big_data: false,
             wrapped_codes: false,
         }
     }
@@ -228,6 +231,10 @@ impl<'a> G<'a> {
         }
     }
     pub fn data(&mut self) -> Option<B> {
+        if self.cfg.big_data && self.rng.chance(1, 10) {
+            let n = *self.rng.pick(&[127usize, 128, 128, 129]);
+            return Some((0..n).map(|i| (i * 7 + 3) as u8).collect());
+        }
         match self.rng.below(4) {
             0 | 1 => None,
             2 => Some(vec![]),
